@@ -400,18 +400,30 @@ def closeBytes (f : Fmt) (st : WState) : Status × List Nat :=
   | .odc => let r := odcWriteHeaderCore st trailerEntry (trailerEntry.path.getD []); (r.st, r.bytes)
   | .newc => let r := newcWriteHeaderCore st trailerEntry (trailerEntry.path.getD []) 0 0; (r.st, r.bytes)
 
+/-- One `archive_write_data` call inside the loop of `writeEntry`: (bytes accepted so far,
+output so far, state). -/
+def dataStep (acc : Nat × List Nat × WState) (c : List Nat) : Nat × List Nat × WState :=
+  let w := writeData acc.2.2 c
+  (acc.1 + w.1.length, acc.2.1 ++ w.1, w.2)
+
 /-- Write one whole entry: header, the body in the given chunks, finish.
 Returns header status, bytes accepted by `write_data`, output bytes, state. -/
 def writeEntry (f : Fmt) (st : WState) (e : Entry) (chunks : List (List Nat)) :
     Status × Nat × List Nat × WState :=
-  let (hs, hb, st1) := writeHeader f st e
-  if hs = .failed ∨ hs = .fatal then (hs, 0, hb, st1)
+  let h := writeHeader f st e
+  if h.1 = .failed ∨ h.1 = .fatal then (h.1, 0, h.2.1, h.2.2)
   else
-    let r := chunks.foldl (fun (acc : Nat × List Nat × WState) c =>
-      let (b, s') := writeData acc.2.2 c
-      (acc.1 + b.length, acc.2.1 ++ b, s')) (0, [], st1)
-    let (fb, st3) := finishEntry r.2.2
-    (hs, r.1, hb ++ r.2.1 ++ fb, st3)
+    let r := chunks.foldl dataStep (0, [], h.2.2)
+    let fin := finishEntry r.2.2
+    (h.1, r.1, h.2.1 ++ r.2.1 ++ fin.1, fin.2)
+
+/-- A sequence of entries, each with the chunks its body is written in. -/
+def writeEntries (f : Fmt) : WState → List (Entry × List (List Nat)) → List Nat × WState
+  | st, [] => ([], st)
+  | st, ec :: r =>
+    let w := writeEntry f st ec.1 ec.2
+    let rest := writeEntries f w.2.2.2 r
+    (w.2.2.1 ++ rest.1, rest.2)
 
 /-- The last-block padding of `archive_write_client_close` (bytes_per_block `bpb`,
 bytes_in_last_block `bilb`; `bpb = 0` is unbuffered). -/
@@ -423,6 +435,13 @@ def clientPad (total bpb : Nat) (bilb : Int) : Nat :=
     let t := bilb.toNat * ((r + bilb.toNat - 1) / bilb.toNat)
     if t > bpb then bpb else t
   if r < target then target - r else 0
+
+/-- A whole archive as the client sink receives it: entries, the format's trailer, and the
+last-block padding of the output blocking. -/
+def writeArchive (f : Fmt) (es : List (Entry × List (List Nat))) (bpb : Nat) (bilb : Int) : List Nat :=
+  let w := writeEntries f {} es
+  let raw := w.1 ++ (closeBytes f w.2).2
+  raw ++ List.replicate (clientPad raw.length bpb bilb) 0
 
 /-! ## Readers -/
 
